@@ -14,7 +14,127 @@ package texttab
 // full width, a left-aligned cell is not padded.
 //@ func (a align) lpad(s string, w int) (r string)
 //@   props C16
-//@   requires -281474976710656 <= w <= 281474976710656
+//@   nooverflow
 //@   ensures a == alignCenter ==> r == sprintf("%*s%s", iface((w - utf8.RuneCountInString(s)) / 2), iface(""), iface(s))
 //@   ensures a == alignRight ==> r == sprintf("%*s", iface(w), iface(s))
 //@   ensures a != alignCenter && a != alignRight ==> r == s
+
+// ---------------------------------------------------------------------------
+// Table construction (C16): cells are recorded where the cursor is, spans lie
+// inside the table, and the cursor only moves right within a row.
+
+// Every recorded cell spans at least one column and lies inside the table.
+//@ pure func cellsOK(t *Table) bool = 0 <= t.curCol && 0 <= t.cols && 0 <= t.curRow &&
+//@     forall i int :: 0 <= i < len(t.cells) ==> 0 <= t.cells[i].col && 1 <= t.cells[i].span && t.cells[i].col + t.cells[i].span <= t.cols && 0 <= t.cells[i].row && t.cells[i].row <= t.curRow
+
+//@ func (t *Table) Row() (r *Table)
+//@   props C16
+//@   nooverflow
+//@   requires t != nil && cellsOK(t)
+//@   modifies t
+//@   ensures r == t && cellsOK(t) && t.curCol == 0 && t.cells === old(t.cells) && t.cols == old(t.cols)
+//@   ensures t.curRow == old(t.curRow) + (len(t.cells) > 0 ? 1 : 0)
+
+//@ func (t *Table) Col(col int) (r *Table)
+//@   props C16
+//@   requires t != nil && cellsOK(t) && col >= t.curCol
+//@   modifies t
+//@   ensures r == t && cellsOK(t) && t.curCol == col && t.cells === old(t.cells) && t.cols == old(t.cols) && t.curRow == old(t.curRow)
+
+//@ func (t *Table) CurCol() (c int)
+//@   props C16
+//@   requires t != nil
+//@   ensures c == t.curCol
+
+// Span records one cell at the cursor, spanning cols columns, and moves the
+// cursor past it, widening the table if needed.  (Cell options are function
+// values applied to the new cell; they are assumed to set only its margin and
+// alignment.)
+//@ func (t *Table) Span(cols int, value string, opts []CellOption) (r *Table)
+//@   props C16
+//@   nooverflow
+//@   opt allocates
+//@   requires t != nil && cellsOK(t) && cols >= 1
+//@   modifies t, t.cells
+//@   ensures r == t && cellsOK(t) && len(t.cells) == old(len(t.cells)) + 1 && t.curCol == old(t.curCol) + cols && t.curRow == old(t.curRow)
+//@   ensures t.cols == (old(t.curCol) + cols > old(t.cols) ? old(t.curCol) + cols : old(t.cols))
+//@   ensures t.cells[len(t.cells)-1].row == old(t.curRow) && t.cells[len(t.cells)-1].col == old(t.curCol) && t.cells[len(t.cells)-1].span == cols
+//@   ensures forall i int :: 0 <= i < old(len(t.cells)) ==> t.cells[i] == old(t.cells[i])
+//@   loop 1:
+//@     invariant 0 <= idx() <= len(opts) && unchanged(t, t.cells, old(t.cells)) && (ref(t.cells) == old(ref(t.cells)) || fresh(t.cells))
+//@     invariant len(t.cells) == old(len(t.cells)) + 1 && t.curCol == old(t.curCol) && t.cols == old(t.cols) && t.curRow == old(t.curRow)
+//@     invariant t.cells[len(t.cells)-1].row == old(t.curRow) && t.cells[len(t.cells)-1].col == old(t.curCol) && t.cells[len(t.cells)-1].span == cols
+//@     invariant forall i int :: 0 <= i < old(len(t.cells)) ==> t.cells[i] == old(t.cells[i])
+
+//@ func (t *Table) Cell(value string, opts []CellOption) (r *Table)
+//@   props C16
+//@   opt allocates
+//@   requires t != nil && cellsOK(t)
+//@   modifies t, t.cells
+//@   ensures r == t && cellsOK(t) && len(t.cells) == old(len(t.cells)) + 1 && t.curCol == old(t.curCol) + 1 && t.curRow == old(t.curRow)
+//@   ensures t.cells[len(t.cells)-1].row == old(t.curRow) && t.cells[len(t.cells)-1].col == old(t.curCol) && t.cells[len(t.cells)-1].span == 1
+
+// SetShrink marks exactly the given column, extending the marks with false.
+//@ func (t *Table) SetShrink(col int, shrink bool)
+//@   props C16
+//@   nooverflow
+//@   opt allocates
+//@   requires t != nil && col >= 0
+//@   modifies t, t.shrink
+//@   ensures len(t.shrink) >= col + 1 && len(t.shrink) >= old(len(t.shrink)) && t.shrink[col] == shrink
+//@   ensures forall i int :: 0 <= i < old(len(t.shrink)) && i != col ==> t.shrink[i] == old(t.shrink[i])
+//@   ensures forall i int :: old(len(t.shrink)) <= i < len(t.shrink) && i != col ==> !t.shrink[i]
+//@   ensures t.cells === old(t.cells) && t.cols == old(t.cols) && t.curCol == old(t.curCol) && t.curRow == old(t.curRow)
+//@   loop 1:
+//@     invariant len(t.shrink) >= old(len(t.shrink)) && unchanged(t, t.shrink, old(t.shrink)) && (ref(t.shrink) == old(ref(t.shrink)) || fresh(t.shrink))
+//@     invariant forall i int :: 0 <= i < old(len(t.shrink)) ==> t.shrink[i] == old(t.shrink[i])
+//@     invariant forall i int :: old(len(t.shrink)) <= i < len(t.shrink) ==> !t.shrink[i]
+//@     invariant t.cells === old(t.cells) && t.cols == old(t.cols) && t.curCol == old(t.curCol) && t.curRow == old(t.curRow)
+//@     decreases col + 1 - len(t.shrink)
+
+// Format never indexes a width, margin or offset table out of range, whatever
+// cells were recorded (the widths it computes are the subject of the bounded
+// layout check).
+//@ func (t *Table) Format(w io.Writer) (err error)
+//@   props C16
+//@   nooverflow
+//@   opt allocates
+//@   requires t != nil && cellsOK(t)
+//@   modifies t.cells
+//@   loop 1:
+//@     invariant 0 <= idx() <= len(t.cells) && len(lmargin) == t.cols && fresh(lmargin) && cellsOK(t) && unchanged()
+//@     decreases len(t.cells) - idx()
+//@   loop 2:
+//@     invariant 0 <= idx() <= len(t.cells) && len(lmargin) == t.cols && len(ws) == t.cols && fresh(ws) && cellsOK(t)
+//@     invariant spanCols == nil || (fresh(spanCols) && ref(spanCols) != ref(ws))
+//@     invariant unchanged(t.cells)
+//@     decreases len(t.cells) - idx()
+//@   loop 3:
+//@     invariant cell.col <= col && col <= cell.col + cell.span
+//@     decreases cell.col + cell.span - col
+//@   loop 4:
+//@     invariant cell.col <= col && col <= cell.col + cell.span && len(lmargin) == t.cols && len(ws) == t.cols && fresh(ws)
+//@     invariant spanCols == nil || (fresh(spanCols) && ref(spanCols) != ref(ws))
+//@     invariant forall j int :: 0 <= j < len(spanCols) ==> 0 <= spanCols[j] && spanCols[j] < t.cols
+//@     invariant unchanged(t.cells)
+//@     decreases cell.col + cell.span - col
+//@   loop 5:
+//@     invariant 0 <= idx() <= len(spanCols) && span == len(spanCols) - idx() && len(ws) == t.cols && len(lmargin) == t.cols && fresh(ws)
+//@     invariant spanCols == nil || (fresh(spanCols) && ref(spanCols) != ref(ws))
+//@     invariant forall j int :: 0 <= j < len(spanCols) ==> 0 <= spanCols[j] && spanCols[j] < t.cols
+//@     invariant unchanged(t.cells)
+//@     decreases len(spanCols) - idx()
+//@   loop 6:
+//@     invariant 0 <= idx() <= len(ws) && len(offs) == t.cols + 1 && len(ws) == t.cols && fresh(offs) && len(lmargin) == t.cols && cellsOK(t)
+//@     invariant unchanged(t.cells)
+//@     decreases len(ws) - idx()
+//@   loop 7:
+//@     invariant 0 <= idx() <= rlen()
+//@   loop 8:
+//@     invariant true
+//@   loop 9:
+//@     invariant 0 <= idx() <= len(t.cells) && cellsOK(t) && len(offs) == t.cols + 1 && len(lmargin) == t.cols
+//@     invariant unchanged(t.cells)
+//@     decreases len(t.cells) - idx()
+//@   loop 10:
+//@     invariant true
